@@ -32,7 +32,7 @@ INFO = {
         "ref": "DESIGN.md 4 C04",
     },
     "C05": {
-        "text": "No-crash harnesses: every byte of a bounded-length datagram is symbolic; the real RTP/RTCP/SCTP/codec parsers and receive handlers are executed on it; any exception other than ValueError escaping, or a path exceeding the unwinding budget (hang), is a violation candidate replayed on the plain code. 'Processes subsequent valid traffic normally' is checked for SCTP: after a nonsensical complete DATA message (any TSN / stream sequence number) or a stray INIT on an established association, two genuine messages must be delivered in order.",
+        "text": "No-crash harnesses: every byte of a bounded-length datagram is symbolic; the real RTP/RTCP/SCTP/codec parsers and receive handlers are executed on it; any exception other than ValueError escaping, or a path exceeding the unwinding budget (hang), is a violation candidate replayed on the plain code. 'Processes subsequent valid traffic normally' is checked for SCTP: after a nonsensical complete DATA message (any TSN / stream sequence number) (also a headless middle / last fragment) or a stray INIT on an established association, two genuine messages must be delivered in order; after a SACK with an arbitrary cumulative TSN the genuine SACK must still be honoured; an empty or one-byte datagram must not end the DTLS receive loop; a stray DCEP message must not move a channel backwards; a SACK that abandons a partly transmitted message must not raise.",
         "note": "Bounds: RTP/RTCP datagrams <=20 B quick / <=24 B thorough (first one or two bytes fixed per job; NACK bitmasks restricted to 3 free bits); SCTP common header + 4..12 B of chunks quick / up to 24 B thorough in 7 association states, plus structure-aware DATA/DCEP, two-DATA and SACK-gap harnesses; real receiver / sender RTCP handlers with payloads <=8 / 12 B. crc32c stubbed so that every structured input passes the checksum (replays carry the real CRC); hangs = paths over the decision budget or a 30 s path cap, confirmed by a concrete replay under a 2 s watchdog; OpenSSL/libsrtp outside.",
         "ref": "DESIGN.md 4 C05",
     },
@@ -57,22 +57,22 @@ INFO = {
         "ref": "DESIGN.md 4 C09",
     },
     "C10": {
-        "text": "One-step inductive check of JitterBuffer.add from an arbitrary invariant-satisfying buffer state (origin, slot occupancy, sequence numbers and timestamps all symbolic) plus a BMC from the constructor state over solver-chosen arrival orders, overflow eviction ending at a frame boundary, and the receiver's forwarding of the key-frame request (real RTCRtpReceiver._handle_rtp_packet with a capacity-4 buffer).",
+        "text": "One-step inductive check of JitterBuffer.add from an arbitrary invariant-satisfying buffer state (origin, slot occupancy, sequence numbers and timestamps all symbolic) plus a BMC from the constructor state over solver-chosen arrival orders, overflow eviction ending at a frame boundary, release of a complete frame waiting at the origin, and the receiver's forwarding of the key-frame request (real RTCRtpReceiver._handle_rtp_packet with a capacity-4 buffer).",
         "note": "Bounds: capacity 4 quick / 4 and 8 thorough (16,128 outside; the code is parametric in the capacity), prefetch 0..4, audio and video.",
         "ref": "DESIGN.md 4 C10",
     },
     "C11": {
-        "text": "NACK generator and retransmission step checks from symbolic states and a closed-loop BMC of the real sender/receiver RTP path over stub transports with solver-chosen loss/duplication/reordering; NACKs also travel serialised (RtcpRtpfbPacket bytes -> parse) before the sender handles them; RTCRtpSender.send() picks the RTX payload type whose apt names the sent codec for any order of the codec list.",
+        "text": "NACK generator and retransmission step checks from symbolic states and a closed-loop BMC of the real sender/receiver RTP path over stub transports with solver-chosen loss/duplication/reordering; NACKs also travel serialised (RtcpRtpfbPacket bytes -> parse) before the sender handles them; RTCRtpSender.send() picks the RTX payload type whose apt names the sent codec for any order of the codec list; a packet recovered over RTX (or verbatim) leaves the missing set and is not requested again.",
         "note": "Bounds: <=3 frames x <=2 packets, <=6 network events; SRTP, real codecs and pacing outside.",
         "ref": "DESIGN.md 4 C11",
     },
     "C12": {
-        "text": "Differential check of the real RtpRouter against a ~35-line reference router transcribed from the property, over solver-chosen sequences of register/unregister/route operations with symbolic SSRCs and payload types.",
+        "text": "Differential check of the real RtpRouter against a ~35-line reference router transcribed from the property, over solver-chosen sequences of register/unregister/route operations with symbolic SSRCs and payload types; the dispatch of a compound RTCP datagram while an endpoint is unregistered by an earlier packet's handler; registration of media and RTX SSRCs for receivers that share payload types.",
         "note": "Bounds: <=3 receivers, <=2 senders; every operation sequence of length <=3 (quick, plus four length-4 unregistration histories) / <=4 (plus a length-5 family).",
         "ref": "DESIGN.md 4 C12",
     },
     "C13": {
-        "text": "DCEP OPEN fidelity round trip with symbolic Unicode label/protocol, id allocation step, forward-only readyState step from arbitrary channel/association states, bufferedAmount accounting, close() before the association is established (any explicit id, id re-use), reliability parameters per flushed message (DCEP always reliable and ordered).",
+        "text": "DCEP OPEN fidelity round trip with symbolic Unicode label/protocol, id allocation step, forward-only readyState step from arbitrary channel/association states, bufferedAmount accounting, close() before the association is established (any explicit id, id re-use), reliability parameters per flushed message (DCEP always reliable and ordered), id allocation after channels of either parity were closed, two close() calls interleaving at the suspension point of the transport write, negotiated channels across a repeated ESTABLISHED transition.",
         "note": "Bounds: label/protocol <=2 code points each, <=3 channels; timing outside.",
         "ref": "DESIGN.md 4 C13",
     },
@@ -82,7 +82,7 @@ INFO = {
         "ref": "DESIGN.md 4 C14",
     },
     "C15": {
-        "text": "Partial: RateCounter window arithmetic (BMC over add/rate sequences with symbolic times and sizes); AimdRateControl.update executed from an arbitrary controller state for 1..3 consecutive calls (never raises, an estimate that rises stays <= 1.5 x latest measurement + 10 kbit/s, over-use cuts to <= 85 % of the latest measurement) with its two pow/float helpers replaced by their integer contracts, which are checked separately (_near_max_rate_increase / _additive_rate_increase / _clamp_bitrate), and the float EWMA _update_max_throughput_estimate checked on its own for 'never raises' (no ZeroDivisionError at zero throughput) with floats modelled as exact rationals of symbolic integers; the estimator orchestration (SSRC list, REMB encodability, measurement window) with the Kalman/over-use pipeline stubbed by arbitrary values; a concrete-count run with 256 SSRCs.",
+        "text": "Partial: RateCounter window arithmetic (BMC over add/rate sequences with symbolic times and sizes); AimdRateControl.update executed from an arbitrary controller state for 1..3 consecutive calls (never raises, an estimate that rises stays <= 1.5 x latest measurement + 10 kbit/s, over-use cuts to <= 85 % of the latest measurement) with its two pow/float helpers replaced by their integer contracts, which are checked separately (_near_max_rate_increase / _additive_rate_increase / _clamp_bitrate; for _multiplicative_rate_increase that the exponent handed to pow() stays within [0, 1] for any idle time), and the float EWMA _update_max_throughput_estimate checked on its own for 'never raises' (no ZeroDivisionError at zero throughput) with floats modelled as exact rationals of symbolic integers; the estimator orchestration (SSRC list, REMB encodability, measurement window) with the Kalman/over-use pipeline stubbed by arbitrary values; a concrete-count run with 256 SSRCs.",
         "note": "Not claimed: InterArrival / OveruseEstimator / OveruseDetector numerics (float recursion), avg_max_bitrate_kbps other than None/1000.0 (sqrt). Bounds: window 2..3 (quick) / 2..8 ms, sequences of 4..5 calls, <=3 packets in the orchestration, rates 0..2^32-1. Quotients of integers are exact rationals; round(0.85*T) is over-approximated by an integer band (DESIGN 10.2); sites are listed in evidence. The linear arithmetic of update() is decided on the integer mirror of the path condition.",
         "ref": "DESIGN.md 4 C15, 10.2",
     },
@@ -97,7 +97,7 @@ INFO = {
         "ref": "DESIGN.md 4 C17",
     },
     "C18": {
-        "text": "One-step check of StreamStatistics.add / report generation from an arbitrary invariant-satisfying state against the RFC 3550 A.1/A.3/A.8 reference, plus BMC of <=5 packets from a fresh object; every report field must pack, including LSR/DLSR computed from a symbolic wall-clock distance to the last sender report (negative, zero, up to 2^40 ms).",
+        "text": "One-step check of StreamStatistics.add / report generation from an arbitrary invariant-satisfying state against the RFC 3550 A.1/A.3/A.8 reference, plus BMC of <=5 packets from a fresh object; every report field must pack, including LSR/DLSR computed from a symbolic wall-clock distance to the last sender report (negative, zero, up to 2^40 ms); per-SSRC counting of RTX / padding packets at the receiver; report rounds for 1..130 SSRCs (at most 31 blocks per packet).",
         "note": "Arrival clock is a symbolic integer; clockrate multiplication abstracted.",
         "ref": "DESIGN.md 4 C18",
     },
